@@ -813,7 +813,19 @@ func (s *Sim) checkClaimsAndIdentity(v *recView) {
 			// identity / storage repair of an adopted or drifted pod: the claims it is
 			// bound to must exist before the pod is written, as for a create
 			s.count("probe.pod_storage_repair")
-			if len(c.MissingClaims) > 0 {
+			// only an update that (re)binds volumes to claims owes the claims (judged when
+			// the write is issued, whatever its outcome); a repair of the identity labels
+			// of a pod that came with its volumes does not. The baseline is the pod as this
+			// reconcile saw it.
+			rebinds := true
+			if in, ok := c.In.(*v1.Pod); ok && in != nil {
+				if seen := v.byName[c.Name]; seen != nil {
+					rebinds = claimVolumes(seen) != claimVolumes(in)
+				} else if pre, ok := c.Pre.(*v1.Pod); ok && pre != nil {
+					rebinds = claimVolumes(pre) != claimVolumes(in)
+				}
+			}
+			if len(c.MissingClaims) > 0 && rebinds {
 				var own []string
 				for _, m := range c.MissingClaims {
 					if _, _, ok := claimOrdinal(set, m); ok {
@@ -843,6 +855,17 @@ func (s *Sim) checkClaimsAndIdentity(v *recView) {
 			}
 		}
 	}
+}
+
+// claimVolumes renders the claim-backed volumes of a pod (name=claim, in order).
+func claimVolumes(p *v1.Pod) string {
+	var out []string
+	for _, vol := range p.Spec.Volumes {
+		if vol.PersistentVolumeClaim != nil {
+			out = append(out, vol.Name+"="+vol.PersistentVolumeClaim.ClaimName)
+		}
+	}
+	return strings.Join(out, ",")
 }
 
 func claimOrdinal(set *asv1.StatefulSet, claim string) (string, int32, bool) {
